@@ -113,7 +113,17 @@ type tokStep struct {
 	// login: the assertion carries one more attribute (what the value gates ask about), with these values
 	CarryAttr   string   `json:"extra_attribute,omitempty"`
 	CarryValues []string `json:"extra_attribute_values,omitempty"`
+	// login: the clock is first moved on to the next instant that lies this many milliseconds into its second (0: it stays where it
+	// is). Sessions begin whenever users log in, not on the stroke of a second.
+	IntoSecondMs int64 `json:"ms_into_the_second,omitempty"`
+	// advance: with ToEdge the clock is moved on to the instant at which the token of login Login is exactly session lifetime + Ms old
+	// (Ms may be negative; the clock stays where it is when that instant has passed already)
+	ToEdge bool `json:"to_the_end_of_that_logins_lifetime,omitempty"`
 }
+
+// c16EdgeMs: distances (ms) from the end of a session's lifetime at which its token is presented. The property draws the line at the
+// lifetime itself; a second is what a token whose instants are whole seconds may lose.
+var c16EdgeMs = []int64{-2500, -1500, -1001, -1000, -999, -500, -1, 0, 1, 2, 50, 100, 250, 400, 499, 500, 501, 750, 999, 1000, 1001, 1500, 2500}
 
 // c16SLOPath in a present step's path stands for the path of the single logout URL the SP advertises in its metadata. The
 // middleware does not serve it; an application that implements logout serves it itself, behind RequireAccount like its other routes.
@@ -128,7 +138,9 @@ var tokKinds = []string{"valid", "valid", "valid", "tracking", "other-deployment
 	"own-key-no-audience", "own-key-no-issuer", "own-key-no-audience-no-issuer"}
 
 func genTokens(g *Rng, tier string) *Plan {
-	k := tokKnobs{LifetimeMs: Pick(g, int64(0), 0, 10_000, 300_000, 86_400_000), SameKey: g.Bool(0.5), OtherDiff: Pick(g, "both", "audience", "issuer")}
+	// lifetimes: whole minutes and hours as well as lifetimes that are no whole number of seconds (a duration computed from a
+	// configuration value in minutes or hours, e.g. 2.5 min, 0.21 h; a very short one for a one-off confirmation page)
+	k := tokKnobs{LifetimeMs: Pick(g, int64(0), 0, 0, 10_000, 300_000, 86_400_000, 10_000, 300_000, 86_400_000, 1_500, 2_500, 150_500, 756_400), SameKey: g.Bool(0.5), OtherDiff: Pick(g, "both", "audience", "issuer")}
 	if k.LifetimeMs > 0 {
 		k.CookieLife = Pick(g, "", "", "default", "default", "short", "long")
 	} else if g.Bool(0.12) {
@@ -173,6 +185,9 @@ func genTokens(g *Rng, tier string) *Plan {
 	}
 	login := func() tokStep {
 		st := tokStep{Kind: "login", User: g.Intn(19)}
+		if g.Bool(0.6) {
+			st.IntoSecondMs = Pick(g, int64(1+g.Intn(999)), 1+int64(g.Intn(999)), 1, 499, 500, 501, 999)
+		}
 		if len(k.Gates) > 0 && g.Bool(0.85) {
 			gt := Pick(g, k.Gates...)
 			st.CarryAttr, st.CarryValues = gt.Attr, c16Derive(g, gt.Value)
@@ -205,6 +220,21 @@ func genTokens(g *Rng, tier string) *Plan {
 			}
 			steps = append(steps, ps)
 		case 2:
+			if g.Bool(0.5) {
+				// the token of one login right around the end of its lifetime, to the millisecond; mostly a login made just now
+				// (the end of an earlier one's lifetime may have passed already)
+				if g.Bool(0.6) {
+					steps = append(steps, login())
+					nlogins++
+				}
+				l := nlogins - 1
+				if g.Bool(0.2) {
+					l = g.Intn(nlogins)
+				}
+				steps = append(steps, tokStep{Kind: "advance", ToEdge: true, Login: l, Ms: Pick(g, c16EdgeMs...)})
+				steps = append(steps, tokStep{Kind: "present", Token: "valid", Login: l, Path: Pick(g, "/page", "/page", "/page", "/gated/x")})
+				break
+			}
 			steps = append(steps, tokStep{Kind: "advance", Ms: Pick(g, int64(1000), life/2, life-5000, life-1000, life+1000, life+5000, 2*life)})
 			steps = append(steps, tokStep{Kind: "present", Token: "valid", Login: g.Intn(nlogins), Path: "/page"})
 		default:
@@ -441,6 +471,15 @@ func execTokens(t *testing.T, p *Plan) *Result {
 		st := decode[tokStep](raw)
 		switch st.Kind {
 		case "advance":
+			if st.ToEdge {
+				if st.Login >= len(logins) {
+					continue
+				}
+				d := logins[st.Login].mintedAt.Add(life + ms(st.Ms)).Sub(time.Now())
+				advance(d)
+				res.logf("step %d advance to %dms from the end of the lifetime of login %d's session (%dms)", si, st.Ms, st.Login, max(d, 0).Milliseconds())
+				continue
+			}
 			advance(ms(st.Ms))
 			res.logf("step %d advance %dms", si, st.Ms)
 		case "jump":
@@ -453,6 +492,10 @@ func execTokens(t *testing.T, p *Plan) *Result {
 			u := users[st.User%len(users)]
 			if st.CarryAttr != "" && len(st.CarryValues) > 0 {
 				u.Attrs = append(append([]AttrSpec(nil), u.Attrs...), AttrSpec{Name: st.CarryAttr, Values: st.CarryValues})
+			}
+			if st.IntoSecondMs > 0 {
+				advance((ms(st.IntoSecondMs%1000) - time.Duration(time.Now().Nanosecond()) + time.Second) % time.Second)
+				res.probe("login-at-a-fraction-of-a-second")
 			}
 			var tok, trk, oth string
 			var err error
@@ -473,7 +516,7 @@ func execTokens(t *testing.T, p *Plan) *Result {
 				return res
 			}
 			logins = append(logins, &loginRec{user: st.User % len(users), u: u, token: tok, tracking: trk, other: oth, mintedAt: time.Now()})
-			res.logf("step %d login user %d -> login %d", si, st.User%len(users), len(logins)-1)
+			res.logf("step %d login user %d -> login %d (%dms into the second)", si, st.User%len(users), len(logins)-1, time.Now().Nanosecond()/1_000_000)
 			if st.CarryAttr != "" && len(st.CarryValues) > 0 {
 				res.logf("step %d   the assertion also carries %s=%q", si, st.CarryAttr, st.CarryValues)
 			}
@@ -534,7 +577,7 @@ func execTokens(t *testing.T, p *Plan) *Result {
 					res.violate(si, "identity-altered", "C16/identity-altered/two-requests-in-flight", "subject "+strconv.Quote(users[l.user].NameID)+" (the presented token's), or no session", observed, "the other request in flight belongs to somebody else")
 					return res
 				}
-				if seen != nil && (age > life+2*time.Second || age < -2*time.Second) {
+				if seen != nil && (age > life || age < -2*time.Second) {
 					res.violate(si, "foreign-or-stale-token-authenticates", "C16/authenticated/valid/"+ageClass(age, life)+"/beside-another-request", "NO_SESSION", observed, "")
 					return res
 				}
@@ -655,20 +698,32 @@ func execTokens(t *testing.T, p *Plan) *Result {
 			}
 			now := time.Now().Add(jump)
 			age := now.Sub(l.mintedAt)
-			// ---- oracle: authenticates iff this SP's session codec minted exactly this token no longer than `life` ago
+			// ---- oracle: authenticates iff this SP's session codec minted exactly this token no longer than `life` ago.
+			// The end of the lifetime is where the property puts it: a token older than the lifetime yields no session, by however
+			// little. On the other side a token's instants are whole seconds, so a session may end up to a second early (and, at a
+			// clock set back, begin up to two seconds early - the don't-care there is as it was).
 			expect := "NO_SESSION"
 			if kind == "valid" {
 				switch {
-				case cookieLife < life && age > cookieLife-2*time.Second && age < life-2*time.Second:
-					expect = "DONT_CARE" // the browser would have dropped the cookie already; the token itself is still inside the session lifetime
-				case age >= 2*time.Second && age < life-2*time.Second:
-					expect = "AUTHENTICATED"
-				case age < -2*time.Second || age > life+2*time.Second:
+				case age > life || age < -2*time.Second:
 					expect = "NO_SESSION"
+				case cookieLife < life && age > cookieLife-2*time.Second:
+					expect = "DONT_CARE" // the browser would have dropped the cookie already; the token itself is still inside the session lifetime
+				case age >= 0 && age <= life-time.Second:
+					expect = "AUTHENTICATED"
 				default:
 					expect = "DONT_CARE"
-					if age >= 0 && age < 2*time.Second && life > 4*time.Second {
-						expect = "AUTHENTICATED" // just minted, clock not moved back
+				}
+				if d := age - life; d > -3*time.Second && d < 3*time.Second {
+					res.probe("valid-token-within-3s-of-the-end-of-its-lifetime")
+					if d > 0 && d < time.Second {
+						res.probe("valid-token-less-than-a-second-older-than-its-lifetime")
+						if l.mintedAt.Nanosecond() != 0 || life%time.Second != 0 {
+							res.probe("valid-token-less-than-a-second-older-than-its-lifetime/lifetime-ends-inside-a-second")
+						}
+					}
+					if d <= -time.Second && d > -2*time.Second {
+						res.probe("valid-token-between-one-and-two-seconds-younger-than-its-lifetime")
 					}
 				}
 			}
@@ -747,6 +802,9 @@ func execTokens(t *testing.T, p *Plan) *Result {
 				continue
 			case "NO_SESSION":
 				if ran || (gatedPath && authenticated) {
+					if kind == "valid" && age > life {
+						whereDetail = strings.TrimPrefix(whereDetail+"; ", "; ") + fmt.Sprintf("the token was issued %dms ago (%dms into a second), the session lifetime is %dms", age.Milliseconds(), l.mintedAt.Nanosecond()/1_000_000, life.Milliseconds())
+					}
 					res.violate(si, "foreign-or-stale-token-authenticates", "C16/authenticated/"+kind+"/"+ageClass(age, life)+where, "NO_SESSION", observed, whereDetail)
 					return res
 				}
@@ -833,14 +891,14 @@ func ageClass(age, life time.Duration) string {
 	switch {
 	case age < -2*time.Second:
 		return "not-yet-valid"
+	case age > life:
+		return "expired"
+	case age > life-time.Second && age >= 0:
+		return "edge"
 	case age < 2*time.Second:
 		return "just-minted"
-	case age < life-2*time.Second:
-		return "inside"
-	case age <= life+2*time.Second:
-		return "edge"
 	}
-	return "expired"
+	return "inside"
 }
 
 func simplifyTokens(p *Plan) []*Plan {
@@ -883,10 +941,10 @@ func simplifyTokens(p *Plan) []*Plan {
 func init() {
 	register(&Profile{
 		ID: "C16", Name: "tokens", Level: "exploration",
-		Rule: "each run: real logins through the middleware (users with friendly-named, plain-named, repeated attributes, absent NameID; RSA/ECDSA SP key; custom cookie name and session lifetime) followed by 3-10 presentations to RequireAccount / RequireAttribute handlers of: the valid session token at clock positions around mint+lifetime and after a backward clock jump, the same SP's tracking token, another deployment's session token (other key, or same key and other URL), alg=none, HS256 keyed with the public key (PEM/DER), edited claims/header, truncated, bit-flipped, empty, garbage, identical claims signed by a foreign key, wrong cookie name; non-trivial = at least one presentation of a non-valid token or of the valid token outside the comfortable inside of its lifetime; distinct = distinct abstract log; a /nested/ route puts the other deployment's RequireAccount in front of the target's; half of the runs mount one or two further attribute gates whose required value is an ordinary string with punctuation or blanks in it (an organisation's name, a group DN, ...) while logins carry that attribute with values derived from the required one (itself, a piece cut at a separator, a prefix, a suffix, another spelling, more appended), admit <=> one carried value is the required string; 12% of the presentations go to the application's own logout endpoint, mounted behind RequireAccount at the single-logout path the SP advertises (with and without SAMLRequest/SAMLResponse parameters); users include assertions with SessionNotOnOrAfter ten hours out, attributes repeated non-adjacently and across two statements; the sibling deployment sharing the key may differ in audience only or issuer only",
+		Rule: "each run: real logins through the middleware (users with friendly-named, plain-named, repeated attributes, absent NameID; RSA/ECDSA SP key; custom cookie name and session lifetime) followed by 3-10 presentations to RequireAccount / RequireAttribute handlers of: the valid session token at clock positions around mint+lifetime and after a backward clock jump, the same SP's tracking token, another deployment's session token (other key, or same key and other URL), alg=none, HS256 keyed with the public key (PEM/DER), edited claims/header, truncated, bit-flipped, empty, garbage, identical claims signed by a foreign key, wrong cookie name; non-trivial = at least one presentation of a non-valid token or of the valid token outside the comfortable inside of its lifetime; distinct = distinct abstract log; a /nested/ route puts the other deployment's RequireAccount in front of the target's; half of the runs mount one or two further attribute gates whose required value is an ordinary string with punctuation or blanks in it (an organisation's name, a group DN, ...) while logins carry that attribute with values derived from the required one (itself, a piece cut at a separator, a prefix, a suffix, another spelling, more appended), admit <=> one carried value is the required string; 12% of the presentations go to the application's own logout endpoint, mounted behind RequireAccount at the single-logout path the SP advertises (with and without SAMLRequest/SAMLResponse parameters); users include assertions with SessionNotOnOrAfter ten hours out, attributes repeated non-adjacently and across two statements; the sibling deployment sharing the key may differ in audience only or issuer only; logins happen at drawn milliseconds into a second, lifetimes include ones that are no whole number of seconds (1.5 s, 2.5 s, 150.5 s, 756.4 s), and the valid token is presented at drawn distances (1 ms - 2.5 s either side) from mint+lifetime",
 		Gen:  genTokens, Exec: execTokens, Simplify: simplifyTokens,
 		RunsQuick: 3000, RunsThorough: 300000,
-		Assumptions: []string{"a token is 'minted by this SP' iff it is exactly the cookie value the deployment set at a login (harness bookkeeping)", "+-2 s around mint and mint+lifetime is a declared don't-care (JWT instants are whole seconds)", "the default session lifetime is one hour (documented default); custom lifetimes are set through the public MaxAge fields", "the SessionIndex entry the codec adds to the attribute map is ignored"},
+		Assumptions: []string{"a token is 'minted by this SP' iff it is exactly the cookie value the deployment set at a login (harness bookkeeping)", "a token older than the session lifetime yields no session, to the millisecond; the last second of the lifetime and +-2 s around mint at a clock set back are a declared don't-care (JWT instants are whole seconds)", "the default session lifetime is one hour (documented default); custom lifetimes are set through the public MaxAge fields", "the SessionIndex entry the codec adds to the attribute map is ignored"},
 		Components: map[string][]string{
 			"real": {"samlsp.Middleware.RequireAccount", "samlsp.RequireAttribute", "CookieSessionProvider + JWTSessionCodec", "JWTTrackedRequestCodec", "golang-jwt", "full login through ServeACS"},
 			"stub": {"foreign IdP", "token-presenting party (Mallory)", "clock (bubble + jump offset)"},
